@@ -246,7 +246,7 @@ def paral_jobs(thorough):
     if thorough:
         consts = dict(TWVariant='"code"', CVALS="{0, 2}", CENTERS="{0, 1, 2, 3}", EFS1="{0, 1, 2, 3, 4}")
     else:
-        consts = dict(TWVariant='"code"', CVALS="{0, 2}", CENTERS="{1}", EFS1="{1, 2, 3}")
+        consts = dict(TWVariant='"code"', CVALS="{0, 2}", CENTERS="{1}", EFS1="{2, 3}")
     jobs = {"c14_paral": ("MC_TetraParal.tla", cfg_of(consts, INV_PARAL), True)}
     if thorough:
         jobs["c14_paral_b"] = ("MC_TetraParal.tla", cfg_of(dict(TWVariant='"code"', CVALS="{0, 4}", CENTERS="{1, 2, 3}", EFS1="{2, 3, 4}"), INV_PARAL), True)
@@ -309,7 +309,7 @@ def real_groups(tw, efs_arr, der, th, kr, unit):
 
 def groups_consts(thorough):
     return {"c14_groups_nb2": dict(TWVariant='"code"', NB=2, VALS="{0, 2, 4}" if thorough else "{0, 2}",
-                                   STARTS1="{0, 2, 3, 5}" if thorough else tlaset(range(0, 5)), STEPS="{2}" if thorough else "{1, 2}", NEF=3, THS="{0, 2}"),
+                                   STARTS1="{0, 2, 3, 5}" if thorough else "{0, 1, 2, 4}", STEPS="{2}" if thorough else "{1, 2}", NEF=3, THS="{0, 2}"),
             "c14_groups_nb3": dict(TWVariant='"code"', NB=3, VALS="{0, 2}", STARTS1=tlaset(range(0, 5)) if thorough else "{0, 1, 3}",
                                    STEPS="{1, 2}" if thorough else "{1}", NEF=3, THS="{0, 2}")}
 
